@@ -6,7 +6,9 @@
  *                  O_CREAT/O_TRUNC/O_APPEND/O_WRONLY/O_RDWR, write/pwrite64/writev, rename*,
  *                  unlink*, mkdir*, ftruncate, fsync, fdatasync, close — only on paths / fds
  *                  under the -p prefix), s = unix-socket calls (socket(AF_UNIX), bind, listen,
- *                  connect, accept4, and unlink/close of sockets), p = execve (process spawn)
+ *                  connect, accept4, and unlink/close of sockets), p = execve (process spawn),
+ *                  r = file reads (read-only openat, read/pread64, getdents64, stat/fstat/statx
+ *                  on paths / fds under the -p prefix)
  *     -p PREFIX    path prefix that file operations must touch to be counted (repeatable, max 4)
  *     -k K         SIGKILL the whole traced tree at the ENTRY of the K-th counted call
  *     -h K         hold the calling thread at the entry of the K-th counted call, run the
@@ -41,7 +43,7 @@
 
 static const char *prefixes[4];
 static int nprefix;
-static int cls_f, cls_s, cls_p;
+static int cls_f, cls_s, cls_p, cls_r;
 static long kill_at = -1, hold_at = -1, fail_at = -1, fail_errno = 0;
 /* -f NAME#N:ERRNO: the N-th counted call NAMEd so fails (robust against the
  * order in which the threads of the tracee reach their calls) */
@@ -111,13 +113,39 @@ static int classify(pid_t pid, struct ptrace_syscall_info *si, const char **name
 	case SYS_openat:
 	case SYS_open: {
 		int flags = (int)(nr == SYS_openat ? a[2] : a[1]);
-		if (!cls_f) return 0;
-		if (!(flags & (O_CREAT | O_TRUNC | O_APPEND | O_WRONLY | O_RDWR))) return 0;
+		int mut = (flags & (O_CREAT | O_TRUNC | O_APPEND | O_WRONLY | O_RDWR)) != 0;
+		if (!(mut ? cls_f : cls_r)) return 0;
 		if (read_str(pid, nr == SYS_openat ? a[1] : a[0], p, sizeof p)) return 0;
 		abs_path(pid, nr == SYS_openat ? (int)a[0] : AT_FDCWD, p, q, sizeof q);
 		if (!under_prefix(q)) return 0;
+		if (!mut) { *name = "openr"; snprintf(detail, dn, "%s", q); return 1; }
 		*name = "open";
 		snprintf(detail, dn, "%s flags=%s%s%s", q, flags & O_CREAT ? "C" : "", flags & O_TRUNC ? "T" : "", flags & O_APPEND ? "A" : "");
+		return 1;
+	}
+	case SYS_read:
+	case SYS_pread64:
+	case SYS_getdents64:
+	case SYS_fstat:
+		if (!cls_r || fd_path(pid, a[0], p, sizeof p)) return 0;
+		if (p[0] == '/' && under_prefix(p)) {
+			*name = nr == SYS_getdents64 ? "getdents" : nr == SYS_fstat ? "fstat" : "read";
+			snprintf(detail, dn, "%s", p);
+			return 1;
+		}
+		return 0;
+	case SYS_stat:
+	case SYS_lstat:
+	case SYS_newfstatat:
+	case SYS_statx: {
+		if (!cls_r) return 0;
+		int at = nr == SYS_newfstatat || nr == SYS_statx;
+		if (read_str(pid, at ? a[1] : a[0], p, sizeof p)) return 0;
+		if (!p[0]) return 0;
+		abs_path(pid, at ? (int)a[0] : AT_FDCWD, p, q, sizeof q);
+		if (!under_prefix(q)) return 0;
+		*name = "stat";
+		snprintf(detail, dn, "%s", q);
 		return 1;
 	}
 	case SYS_write:
@@ -218,7 +246,7 @@ int main(int argc, char **argv) {
 	for (; i < argc; i++) {
 		if (!strcmp(argv[i], "--")) { i++; break; }
 		if (!strcmp(argv[i], "-c") && i + 1 < argc) {
-			for (const char *c = argv[++i]; *c; c++) { if (*c == 'f') cls_f = 1; if (*c == 's') cls_s = 1; if (*c == 'p') cls_p = 1; }
+			for (const char *c = argv[++i]; *c; c++) { if (*c == 'f') cls_f = 1; if (*c == 's') cls_s = 1; if (*c == 'p') cls_p = 1; if (*c == 'r') cls_r = 1; }
 		} else if (!strcmp(argv[i], "-p") && i + 1 < argc) { if (nprefix < 4) prefixes[nprefix++] = argv[++i]; else i++; }
 		else if (!strcmp(argv[i], "-k") && i + 1 < argc) kill_at = atol(argv[++i]);
 		else if (!strcmp(argv[i], "-h") && i + 1 < argc) hold_at = atol(argv[++i]);
@@ -241,7 +269,7 @@ int main(int argc, char **argv) {
 		else { fprintf(stderr, "sysstop: bad option %s\n", argv[i]); return 2; }
 	}
 	if (i >= argc) { fprintf(stderr, "usage: sysstop [opts] -- cmd args...\n"); return 2; }
-	if (!cls_f && !cls_s && !cls_p) cls_f = 1;
+	if (!cls_f && !cls_s && !cls_p && !cls_r) cls_f = 1;
 	if (log_path) logf = fopen(log_path, "w");
 
 	pid_t child = fork();
